@@ -62,6 +62,8 @@ func modePipe(n int, long bool) {
 		oversize = !tcp // UDP: some queries exceed the datagram limit (write fails, connection stays)
 		runWorkers(t, 32, n/32+1, 30*time.Millisecond, 110*time.Millisecond, false)
 		oversize = false
+		// deadlines that fall around the arrival of the reply (0..25 ms): the cancellation races the delivery
+		runWorkers(t, 32, n/32+1, 300*time.Microsecond, 26*time.Millisecond, false)
 		t.Close()
 	}
 	if long {
@@ -121,6 +123,8 @@ func modeReuse(n int) {
 		case 7:
 			b.split = true
 			b.delay = time.Duration(30+(h>>16)%40) * time.Millisecond
+		case 8:
+			b.short = true
 		}
 		return b
 	}
@@ -156,6 +160,7 @@ func modeFallback(n int) {
 			b.drop = u == "drop"
 			if b.tc { // a truncated reply may carry any rcode (e.g. NXDOMAIN whose authority section did not fit)
 				b.rcode = []int{0, 0, 2, 3, 5}[(h>>4)%5]
+				b.hdronly = (h>>20)%4 == 0 // ... and may be nothing but the 12-octet header
 			}
 		} else {
 			b.abort = t == "abort"
